@@ -117,3 +117,65 @@ def gen(lines: list[str]) -> None:
     if [x[1] for x in labels] != ["homepage", "repository_url", "documentation_url"]:
         raise ExtractError(f"Package.urls: unexpected shape {labels}")
     lines.append("def urlLabels : List String := " + _strs([x[0] for x in labels]))
+    # factory.py: Factory._validate_single_line_fields (which fields validation restricts to one line, and how)
+    fac = class_def(parse("factory.py"), "Factory")
+    vf = func_def(fac.body, "_validate_single_line_fields")
+    def lit_tuple(n: ast.AST) -> list[str] | None:
+        if isinstance(n, ast.Tuple) and n.elts and all(isinstance(e, ast.Constant) and isinstance(e.value, str) for e in n.elts):
+            return [e.value for e in n.elts]  # type: ignore[attr-defined]
+        return None
+    first = next((st for st in vf.body if isinstance(st, (ast.Assign, ast.AnnAssign))), None)
+    first_comps = [c for c in ast.walk(first) if isinstance(c, ast.comprehension) and lit_tuple(c.iter)] if first is not None else []
+    if len(first_comps) != 1:
+        raise ExtractError("_validate_single_line_fields: scalar-key comprehension not found")
+    scalar = lit_tuple(first_comps[0].iter)
+    loops = [n for n in ast.walk(vf) if isinstance(n, ast.For) and lit_tuple(n.iter)]
+    enum_loops = [n for n in loops if any(isinstance(c, ast.Call) and isinstance(c.func, ast.Name) and c.func.id == "enumerate" for c in ast.walk(n))]
+    if len(enum_loops) != 1:
+        raise ExtractError("_validate_single_line_fields: list-key loop not found")
+    listkeys = lit_tuple(enum_loops[0].iter)
+    other_loops = [n for n in loops if n is not enum_loops[0]]
+    other_comps = [c for c in ast.walk(vf) if isinstance(c, ast.comprehension) and lit_tuple(c.iter) and c is not first_comps[0]]
+    if len(other_loops) > 1 or len(other_comps) > 1:
+        raise ExtractError("_validate_single_line_fields: more literal-key loops than modelled")
+    namekeys = lit_tuple(other_loops[0].iter) if other_loops else []
+    depkeys = lit_tuple(other_comps[0].iter) if other_comps else []
+    # the final filter: isinstance(value, str) and ("\n" in value or "\r" in value)
+    ret = vf.body[-1]
+    if not (isinstance(ret, ast.Return) and isinstance(ret.value, ast.ListComp) and len(ret.value.generators) == 1
+            and len(ret.value.generators[0].ifs) == 1):
+        raise ExtractError("_validate_single_line_fields: final list comprehension changed shape")
+    cond = ret.value.generators[0].ifs[0]
+    ok = (isinstance(cond, ast.BoolOp) and isinstance(cond.op, ast.And) and len(cond.values) == 2
+          and isinstance(cond.values[1], ast.BoolOp) and isinstance(cond.values[1].op, ast.Or))
+    if not ok:
+        raise ExtractError("_validate_single_line_fields: filter condition changed shape")
+    chars = []
+    for c in cond.values[1].values:
+        if not (isinstance(c, ast.Compare) and isinstance(c.ops[0], ast.In) and isinstance(c.left, ast.Constant)
+                and isinstance(c.left.value, str) and len(c.left.value) == 1):
+            raise ExtractError("_validate_single_line_fields: expected `<char> in value` tests")
+        chars.append(c.left.value)
+    elt = ret.value.elt
+    if not (isinstance(elt, ast.JoinedStr) and isinstance(elt.values[-1], ast.Constant)):
+        raise ExtractError("_validate_single_line_fields: message changed shape")
+    consts = {n.value for n in ast.walk(vf) if isinstance(n, ast.Constant) and isinstance(n.value, str)}
+    for needed in ("urls", "readme", "content-type", "readme.content-type"):
+        if needed not in consts:
+            raise ExtractError(f"_validate_single_line_fields: {needed!r} no longer handled")
+    lines.append("/-- Factory._validate_single_line_fields: scalar keys, list keys, forbidden characters, message suffix -/")
+    lines.append("def singleLineScalarKeys : List String := " + _strs(scalar))
+    lines.append("def singleLineListKeys : List String := " + _strs(listkeys))
+    lines.append("/-- keys of tables whose KEYS are checked (extras), and the per-dependency string keys checked in [tool.poetry.dependencies] -/")
+    lines.append("def singleLineNameKeys : List String := " + _strs(namekeys))
+    lines.append("def singleLineDependencyKeys : List String := " + _strs(depkeys))
+    lines.append("def singleLineBreakChars : List Char := [" + ", ".join("Char.ofNat %d" % ord(c) for c in chars) + "]")
+    lines.append("def singleLineMessage : String := " + lean_str(elt.values[-1].value))
+    # validate(): the helper is applied to both tables
+    vd = func_def(fac.body, "validate")
+    locs = [[e.elts[0].value for e in n.iter.elts] for n in ast.walk(vd) if isinstance(n, ast.For) and isinstance(n.iter, ast.Tuple)
+            and n.iter.elts and all(isinstance(e, ast.Tuple) and isinstance(e.elts[0], ast.Constant) for e in n.iter.elts)
+            and any(isinstance(c, ast.Attribute) and c.attr == "_validate_single_line_fields" for c in ast.walk(n))]
+    if len(locs) != 1:
+        raise ExtractError("validate(): call of _validate_single_line_fields for both tables not found")
+    lines.append("def singleLineLocations : List String := " + _strs(locs[0]))
